@@ -106,6 +106,10 @@ SENSITIVITY = {
     "r19b": ("seeded/r19b/patch.diff", "C17", ["result-mismatch"], "C / B: interned axis tables in a registry whose handles publish (generation, position) in the wrong order; builds and drops move entries"),
     "r19c": ("seeded/r19c/patch.diff", "C18", ["callback-invariant"], "A: single-point fast path for n-d queries hands the whole buffer (extra length-1 axes) to the strategy for dynamic-rank data"),
     "r19d": ("seeded/r19d/patch.diff", "C18", ["wrong-target", "concurrent-operation-affected", "query-element-not-delivered", "callback-invariant"], "C / B: single-flight coalescing of identical point queries; a follower sleeps through the next flight and copies its row"),
+    "r20a": ("seeded/r20a/patch.diff", "C17", ["result-mismatch", "entry-point-mismatch"], "A: thread-local 'range already checked' marker set before the Zip that panics on a bad buffer, never cleared on unwind"),
+    "r20b": ("seeded/r20b/patch.diff", "C17", ["not-send-sync"], "static probe: hand-written unsafe impl Send for Interp2D<Sd, Sx, Sx, ..> - lost when x and y use different storage types"),
+    "r20c": ("seeded/r20c/patch.diff", "C18", ["build-invariant", "build-invoked-on-invalid-input"], "A: 2-D minimum-length check as a lexicographic tuple comparison (4 x 2 grid, declared minimum 3)"),
+    "r20d": ("seeded/r20d/patch.diff", "C18", ["callback-invariant", "wrong-target"], "A: Interp2D n-d path gathers xs|ys into a grow-only scratch split at len/2: stale ys after a larger query"),
     "M16": ("mutants/M16.diff", "C17", ["answers-differ-between-processes", "process-history-dependence"], "A: evaluation order picked once per process from the hasher's random seed"),
 }
 # seeded/r7d is kept but not listed: its author reads C18 as forbidding one-point axes for strategies
